@@ -167,6 +167,48 @@ static inline void proj_cell(W& w, const Cell* cell, ProjCtx& c, bool all_props)
     }
     w.end_arr();
     w.kv("nrobust", (int64_t)cell->robustpath_array.count);
+    // robust paths made of straight segments with constant widths / offsets, in the shape of a path
+    // entry ("seg": false marks anything else; then only the count above is meaningful)
+    w.key("rpaths").begin_arr();
+    for (uint64_t i = 0; i < cell->robustpath_array.count; i++) {
+        RobustPath* r = cell->robustpath_array[i];
+        bool seg = r->subpath_array.count > 0;
+        for (uint64_t k = 0; k < r->subpath_array.count; k++)
+            seg = seg && r->subpath_array[k].type == SubPathType::Segment;
+        for (uint64_t e = 0; e < r->num_elements; e++)
+            seg = seg && r->elements[e].width_array.count == r->subpath_array.count &&
+                  r->elements[e].width_array[0].type == InterpolationType::Constant &&
+                  r->elements[e].offset_array[0].type == InterpolationType::Constant;
+        w.begin_obj().kb("seg", seg).kb("simple", r->simple_path).kb("sw", r->scale_width);
+        w.kv("nel", (int64_t)r->num_elements);
+        w.key("spine").begin_arr();
+        if (seg) {
+            Vec2 p0 = r->subpath_array[0].begin;
+            w.begin_arr().i(c.g(p0.x)).i(c.g(p0.y)).end_arr();
+            for (uint64_t k = 0; k < r->subpath_array.count; k++) {
+                Vec2 p = r->subpath_array[k].end;
+                w.begin_arr().i(c.g(p.x)).i(c.g(p.y)).end_arr();
+            }
+        }
+        w.end_arr();
+        w.key("els").begin_arr();
+        for (uint64_t e = 0; e < r->num_elements; e++) {
+            RobustPathElement* el = r->elements + e;
+            w.begin_obj().kv("l", get_layer(el->tag)).kv("t", get_type(el->tag));
+            w.kv("pt", end_type_code(el->end_type));
+            w.kv("w", seg ? c.g(el->width_array[0].value * r->width_scale) : 0);  // width_array holds full widths
+            w.kv("off", seg ? c.g(el->offset_array[0].value * r->offset_scale) : 0);
+            w.kv("nwo", (int64_t)0);
+            w.key("ext").begin_arr().i(c.g(el->end_extensions.u)).i(c.g(el->end_extensions.v)).end_arr();
+            w.end_obj();
+        }
+        w.end_arr();
+        proj_gds_props(w, r->properties);
+        if (all_props) proj_all_props(w, r->properties);
+        proj_rep(w, r->repetition, c);
+        w.end_obj();
+    }
+    w.end_arr();
     w.key("refs").begin_arr();
     for (uint64_t i = 0; i < cell->reference_array.count; i++) {
         Reference* r = cell->reference_array[i];
